@@ -10,7 +10,8 @@
     not modelled; which directories become jobs, and what each job lists, is
     checked against the built binary on generated trees by the check itself. *)
 From Coq Require Import Permutation.
-From GFS Require Import Base Path Listing Seqls Pipeline PipelineProofs WalkProofs.
+From GFS Require Import Base Pipeline PipelineProofs.
+From GFS Require Pad Seq Path Listing SpecListing Seqls WalkLts DiskProofs WalkProofs WalkSched SeqlsCover.
 From GFS Require Fastwalk GenFastwalk FastwalkProofs.
 
 Section C17.
@@ -56,6 +57,8 @@ Example complete_run :
             Permutation (printed s) (results PipelineExample.run1 PipelineExample.jobs1).
 Proof. exact PipelineExample.complete_run_exists. Qed.
 
+Import Pad Seq Path Listing SpecListing Seqls WalkLts DiskProofs WalkProofs WalkSched SeqlsCover.
+
 (** ---- the directory walk (Model/Seqls.v), the model the check compares with the binary ---- *)
 
 (** the fuel handed out by walk_root is always enough: its answer is the fuel-free specification,
@@ -100,6 +103,91 @@ Print Assumptions walk_always_terminates.
 Print Assumptions trees_without_dot_entries_are_acyclic.
 Print Assumptions walk_visits_each_directory_exactly_once.
 Print Assumptions each_link_target_followed_at_most_once.
+
+(** ---- the walk under ANY schedule (Model/WalkLts.v: one entry of any pending directory per step,
+    the cache lookup-and-insert atomic, as under fastwalk's worker pool) ---- *)
+
+(** the depth-first model the check runs is one of the schedules *)
+Theorem depth_first_model_is_a_schedule : forall t all root real cache jobs cache',
+  acyclic t -> walk_root t all root real cache = (jobs, cache') ->
+  exists s, wsteps t all (winit t all root real cache) s /\ wfinal s /\
+            ws_jobs s = jobs /\ ws_cache s = cache' /\
+            Permutation (ws_jobs s) jobs /\ (forall x, mem x (ws_cache s) = mem x cache').
+Proof. exact dfs_is_a_schedule. Qed.
+
+(** whatever the scheduling, a tree whose links are "flat" (at most one link per target, no link
+    below a link target: the domain of the exact-listing and determinism clauses) is listed as the
+    depth-first model lists it, up to order *)
+Theorem every_schedule_lists_what_the_model_lists : forall t all root real cache s,
+  wf_tree t -> flat_links t ->
+  (forall n, In n t -> tn_kind n = KLinkDir -> mem (tn_target n) cache = false) ->
+  wsteps t all (winit t all root real cache) s -> wfinal s ->
+  Permutation (ws_jobs s) (fst (walk_root t all root real cache)).
+Proof. exact any_schedule_is_the_model. Qed.
+
+Theorem listing_jobs_are_schedule_independent : forall t all root real s1 s2,
+  wf_tree t -> flat_links t ->
+  wsteps t all (winit t all root real []) s1 -> wfinal s1 ->
+  wsteps t all (winit t all root real []) s2 -> wfinal s2 ->
+  Permutation (ws_jobs s1) (ws_jobs s2).
+Proof. exact any_schedule_same_jobs_empty_cache. Qed.
+
+(** every schedule terminates, with any links at all (cyclic, aliased, nested) *)
+Theorem every_schedule_terminates : forall t all root real cache,
+  acyclic t ->
+  (exists measure : WalkLts.wstate -> nat,
+     measure (winit t all root real cache) <= wbound (List.length t) /\
+     forall s s', wsteps t all (winit t all root real cache) s -> wstep t all s s' -> measure s' < measure s) /\
+  (forall k s, wstepsn t all k (winit t all root real cache) s -> k <= wbound (List.length t)) /\
+  (forall s, wsteps t all (winit t all root real cache) s -> exists s', wsteps t all s s' /\ wfinal s') /\
+  (forall s, wfinal s \/ exists s', wstep t all s s').
+Proof. exact any_schedule_terminates. Qed.
+
+(** K5, machine-checked: with a link below another link's target the listing DOES depend on the
+    schedule (no cycle involved) - the statement of the property is false outside its quantifier's
+    "at most one link per target" domain, which is why the check treats such trees as a finding *)
+Theorem nested_links_listing_depends_on_the_schedule_refuted :
+  exists t all root real s1 s2,
+    wf_tree t /\ link_acyclic t /\ ~ flat_links t /\ NoDup (map tn_target (links t)) /\
+    wsteps t all (winit t all root real []) s1 /\ wfinal s1 /\
+    wsteps t all (winit t all root real []) s2 /\ wfinal s2 /\
+    ~ Permutation (ws_jobs s1) (ws_jobs s2).
+Proof. exact nested_links_schedule_dependence_refuted. Qed.
+
+(** ---- end to end on the model: `seqls -r dir` prints the strings of sequences that expand to
+    exactly the visible files of exactly the reachable directories (C17's first clause, by
+    composing the walk theorem with C06 and C05) ---- *)
+Theorem seqls_r_prints_exactly_the_selected_files : forall f cwd t a root real,
+  sf_recurse f = true -> sf_seqs f = false -> sf_abs f = false ->
+  classify_arg t (path_clean a) = ADir root real ->
+  wf_tree t -> no_links t -> ~ (sf_all f = false /\ hidden_dir root = true) ->
+  tree_names_ok (sf_all f) t root real ->
+  let jobs := fst (walk_root t (sf_all f) root real []) in
+  let seqs := flat_map (fun sr => dir_job_seqs f t (fst sr) (snd sr)) jobs in
+  seqls_lines f cwd t [a] = map q_string seqs /\
+  NoDup (map snd jobs) /\
+  (forall s r, In (s, r) jobs <-> reach t (sf_all f) root real s r) /\
+  Permutation (flat_map q_paths seqs)
+              (flat_map (fun sr => dir_files (sf_all f) t (fst sr) (snd sr)) jobs).
+Proof. exact seqls_r_end_to_end. Qed.
+
+(** with -s: only the numbered sequences of each reachable directory *)
+Theorem seqls_r_s_prints_exactly_the_numbered_files : forall f t root real,
+  wf_tree t -> no_links t -> ~ (sf_all f = false /\ hidden_dir root = true) ->
+  sf_seqs f = true -> tree_names_ok (sf_all f) t root real ->
+  let jobs := fst (walk_root t (sf_all f) root real []) in
+  Permutation (flat_map (fun sr => flat_map q_paths (dir_job_seqs f t (fst sr) (snd sr))) jobs)
+              (flat_map (fun sr => filter (fun p => visible (sf_all f) p && numbered p)
+                                          (map (fun n => dir_prefix (fst sr) ++ n) (non_dirs (entries t (snd sr))))) jobs).
+Proof. intros f t root real Hwf Hnl Hroot Hs Hok. exact (proj2 (seqls_recursive_cover_numbered f t root real Hwf Hnl Hroot Hs Hok)). Qed.
+
+Print Assumptions depth_first_model_is_a_schedule.
+Print Assumptions every_schedule_lists_what_the_model_lists.
+Print Assumptions listing_jobs_are_schedule_independent.
+Print Assumptions every_schedule_terminates.
+Print Assumptions nested_links_listing_depends_on_the_schedule_refuted.
+Print Assumptions seqls_r_prints_exactly_the_selected_files.
+Print Assumptions seqls_r_s_prints_exactly_the_numbered_files.
 
 (** ---- fastwalk.Walk: the termination-detection protocol of the concurrent directory walker ----
     The coordinator's select loop is TRANSLATED from cmd/seqls/internal/fastwalk/fastwalk.go on every
